@@ -19,6 +19,22 @@ func zzDecl(form, ka, kb, sp int) (text string, lo, hi uint64, loHuge, hiHuge, h
 		pad = " "
 	}
 	var a, b string
+	if rt.ParamOr("zeros", 0) > 0 {
+		// 18..20 zeros in front of the symbolic digits: the value is the small number
+		defer func() {
+			zz := "00000000000000000000"[:17+rt.Param("zeros")]
+			switch form {
+			case 0:
+				text = "[" + pad + zz + a + pad + "]"
+			case 1:
+				text = "[" + pad + zz + a + pad + ".." + pad + zz + b + pad + "]"
+			case 2:
+				text = "[" + pad + zz + a + pad + ".." + pad + "]"
+			case 3:
+				text = "[" + pad + ".." + pad + zz + b + pad + "]"
+			}
+		}()
+	}
 	if rt.Param("nines") > 0 {
 		// 19 concrete nines in front of the symbolic digits: every such number is >= 10^19*9 and
 		// with one more digit exceeds 2^64, i.e. it overflows int (the parser's clamp is exercised)
